@@ -56,7 +56,7 @@ def _install_capture():
     ford.output.Documentation._verif_wrapped = True
 
 
-def run_inproc(root: str, meta: dict, body: str = "", name="proj.md"):
+def run_inproc(root: str, meta: dict, body: str = "", name="proj.md", cwd_other: str | None = None):
     """Run FORD in this process on <root>/<name> (as `ford proj.md` would from cwd=root).
     Returns (ok, stdout_text, exception_or_None).  site.CAPTURED holds project/docs afterwards."""
     import ford
@@ -70,12 +70,12 @@ def run_inproc(root: str, meta: dict, body: str = "", name="proj.md"):
     fordrun.fresh_names()
     buf = io.StringIO()
     cwd = os.getcwd()
-    os.chdir(root)
+    os.chdir(cwd_other or root)          # cwd_other: as `ford <root>/proj.md` started from another directory
     err = None
     try:
         with contextlib.redirect_stdout(buf), contextlib.redirect_stderr(buf):
             proj_docs, proj_data = ford.load_settings(text, pathlib.Path(root), name)
-            proj_data, proj_docs = ford.parse_arguments({"project_file": _Named(name)}, proj_docs, proj_data, pathlib.Path(root))
+            proj_data, proj_docs = ford.parse_arguments({"project_file": _Named(os.path.join(root, name) if cwd_other else name)}, proj_docs, proj_data, pathlib.Path(root))
             ford.main(proj_data, proj_docs)
     except SystemExit as ex:
         err = ex if ex.code not in (0, None) else None
